@@ -257,7 +257,7 @@ impl Property for C13 {
         prop_oneof![8 => chain, 1 => single_axle1, 2 => diff].boxed()
     }
     fn cases(tier: Tier) -> u32 {
-        tier.pick(4_000, 60_000)
+        tier.pick(25_000, 120_000)
     }
     fn check(s: &Scenario) -> CheckResult {
         check(s)
